@@ -1,6 +1,6 @@
 # Builds the simulator and the harnesses from /repo's current working tree (never links libfix8.so).
 REPO ?= /repo
-V := /verif
+V := $(patsubst %/,%,$(dir $(abspath $(lastword $(MAKEFILE_LIST)))))
 B ?= $(V)/build
 FL ?= asan
 O := $(B)/$(FL)
